@@ -468,7 +468,13 @@ pub fn gen_gecko(d: &mut Dna, cfg: &GenCfg) -> Option<Gecko> {
 			}
 		}
 	};
-	let last = 1 + d.below(512);
+	// size of the last block: the edges (1 byte, 511, exactly full) get real weight
+	let last = match d.u8() {
+		0..=59 => 512,
+		60..=89 => 1,
+		90..=109 => 511,
+		_ => 1 + d.below(512),
+	};
 	let mut actual = ((blocks - 1) * 512 + last) as u32;
 	if actual % 65536 == 0 {
 		actual -= 1; // excluded by construction: the recorder itself would declare size 0
